@@ -124,7 +124,9 @@ def check_tree(tree, tag, rep):
 def check_one(arg):
     std, seed, v = arg
     import fp
-    if seed < 0:
+    if isinstance(seed, str):
+        src = seed                # a catalogue entry (with a directive-form comment so that every node kind occurs)
+    elif seed < 0:
         src = WITH_NODES
     else:
         st, _ = gen.gen_program(seed, std, size=0.5)
@@ -137,7 +139,7 @@ def check_one(arg):
         return []
     rep = dict(std=std, source=src, comments=mode)
     fails = check_tree(o.tree, "string", rep)
-    if v % 5 == 4 or seed < 0:
+    if v % 5 == 4 or (not isinstance(seed, str) and seed < 0):
         # the same through a FortranFileReader (recorded finding: the open file in item.reader)
         d = tempfile.mkdtemp(prefix="verif_c18_")
         try:
@@ -170,6 +172,11 @@ def run(ctx):
         corr["disagreements"].append(dict(what="cannot read generated table: %s" % e))
     jobs = [(("f2003", "f2008")[k % 2], ctx.seed * 107 + k // 3, k % 6) for k in range(ctx.n(90, 3000))]
     jobs += [(std, -1, v) for std in ("f2003", "f2008") for v in (0, 1, 2)]
+    # the statement catalogue and the unusual program structures, a directive-form comment in front (v = 2: directives on)
+    import catalogue
+    cat = catalogue.sources()
+    jobs += [(("f2003", "f2008")[k % 2], "!$omp parallel\n" + src, (0, 1, 2)[k % 3])
+             for k, src in enumerate(cat if not ctx.quick else cat[ctx.seed % 4::4])]
     failures = []
     for job, (st, r) in zip(jobs, pool.pmap(check_one, jobs, chunksize=4)):
         if st != "ok":
